@@ -61,6 +61,8 @@ def one(spec, batch, stats, cap, prop):
         evs = []
         for decider in ("grow", "pigrow", "full"):
             for d in range(max(mind, 1), mind + 4):
+                if GR.lang_size(spec, d) > 4 * cap:
+                    break       # count first: TLC has to build Lang(d) itself (FullLang filters it), keep it affordable
                 r = enumerate_set(g, decider, d, cap)
                 if r is None:
                     break
